@@ -302,6 +302,22 @@ func c01BuildScenario(rnd *rand.Rand, profile string, idx int) *c01Scenario {
 		add(c01Ms(rnd, 20, 26), "swallow", rnd.IntN(3), c01Ms(rnd, 6.5, 8), 0)
 		add(c01Ms(rnd, 2, 30), "ch500a", -1, 0, 1)
 		sc.Mandatory = []string{"failed-insert", "keep", "late-recent"}
+	case "q-full":
+		// single inserter per replica kept busy by a slow ClickHouse for most of the run, connections cut
+		// every ~2 s meanwhile: recent sends fail at once, their historic re-sends land in the still-recent
+		// bucket, which then meets the full conveyor — the aggregator answers a *historic* request with keep
+		sc.TrafficSec = 25
+		sc.AggFlags = []string{"--recent-inserters=1"}
+		add(c01Ms(rnd, 1, 2), "ch500a", -1, 0, 1)
+		for rep := 0; rep < 3; rep++ {
+			at := c01Ms(rnd, 2.5, 4)
+			add(at, "chdelay", rep, c01Ms(rnd, 6, 7), 3)
+			for d := int64(3000); d <= 17000; d += 2000 {
+				add(at+d+int64(rnd.IntN(900)), "cut", rep, 0, 0)
+			}
+		}
+		add(c01Ms(rnd, 10, 16), "kill", rnd.IntN(3), c01Ms(rnd, 2, 4), 0)
+		sc.Mandatory = []string{"failed-insert", "cut", "kill", "keep", "conveyor-full", "historic-keep"}
 	case "t-full", "r-full":
 		sc.TrafficSec = 42
 		sc.AggFlags = []string{"--recent-inserters=1"}
@@ -1234,7 +1250,7 @@ func c01Main(t *testing.T, unit string, aggEnv string, maxParallel int, quick []
 
 func TestVerifC01(t *testing.T) {
 	c01Main(t, "e2e", "VERIF_BIN_AGG", 4,
-		[]string{"q-mix", "q-restart"},
+		[]string{"q-mix", "q-restart", "q-full"},
 		[]string{"t-mix", "t-mix", "t-ch", "t-proxy", "t-kill", "t-restart", "t-late", "t-full"})
 }
 
